@@ -69,8 +69,12 @@ def generate(rng, run, tier):
         # avoid switch: known finding C07-closure-fake-forwardref (unresolvable name in a closure is matched by class name)
         text = 'list[Later]'
         shape = 'list[{T}]'
-    if placement == 'nested_method' and t == 'Inner' and rng.random() < 0.5:
-        pass
+    generic = False
+    if t in ('Early', 'Later', 'Local') and rng.random() < 0.15:
+        # the named class is a user generic and the annotation *subscripts* the name: 'Later[int]', list['Local[int]']
+        generic = True
+        shape = rng.choice(['{T}[int]', 'list[{T}[int]]', 'Optional[{T}[str]]', '{T}[int] | None', 'Union[{T}[int], int]', 'dict[str, {T}[int]]'])
+        text = shape.format(T=t, U=u)
     events = []
     later_needed = 'Later' in text
     n = rng.randint(3, 8)
@@ -94,7 +98,7 @@ def generate(rng, run, tier):
     return {'placement': placement, 'style': style, 'text': text, 'T': t, 'U': u, 'events': events,
             # what the module-level names Early / Later refer to: plain classes, or subclasses of a subscripted generic
             # (avoid switch: in closures the known finding C07-closure-fake-forwardref also shows with such classes)
-            'flavour': rng.choice([None, None, None, 'list_int', 'dict_str_int']) if (placement not in ('closure', 'closure_method') or rng.random() < 0.15) else None,
+            'flavour': 'generic' if generic else rng.choice([None, None, None, 'list_int', 'dict_str_int']) if (placement not in ('closure', 'closure_method') or rng.random() < 0.15) else None,
             # the same source is executed a second time in a second module with its own classes (same names):
             # nothing resolved or generated for the first scope may leak into the second
             'two_scopes': rng.random() < 0.5}
@@ -103,7 +107,7 @@ def generate(rng, run, tier):
 def _partial(text):
     """Quote only the names inside an otherwise evaluated hint expression: list['Later'], Union['Later', int]."""
     import re
-    return re.sub(r"\b(Outer\.Inner|Early|Later|Outer|Inner|Local|Tag|Key)\b", lambda m: repr(m.group(1)), text)
+    return re.sub(r"\b(Outer\.Inner|Early|Later|Outer|Inner|Local|Tag|Key)\b(\[\w+\])?", lambda m: repr(m.group(0)), text)
 
 
 def _source(case):
@@ -114,7 +118,8 @@ def _source(case):
     else:
         ann = repr(case['text'])
     head = ['from __future__ import annotations'] if case['style'] == 'postponed' else []
-    head += ['from beartype import beartype', 'from typing import Optional, Union']
+    head += ['from beartype import beartype', 'from typing import Generic, Optional, TypeVar, Union', "TV = TypeVar('TV')"]
+    local = 'class Local(Generic[TV]): pass' if case.get('flavour') == 'generic' else 'class Local: pass'
     p = case['placement']
     if p == 'module':
         body = ['@beartype', 'def f(a: %s) -> %s:' % (ann, ann), '    return a']
@@ -128,10 +133,10 @@ def _source(case):
     elif p == 'closure_method':
         # a class decorated inside a function; its method names a local of that function defined after the class
         body = ['def factory():', '    @beartype', '    class Holder:', '        def m(self, a: %s) -> %s:' % (ann, ann),
-                '            return a', '    class Local: pass', '    return Holder().m, Local', 'f, Local_ = factory()']
+                '            return a', '    ' + local, '    return Holder().m, Local', 'f, Local_ = factory()']
     else:
         body = ['def factory():', '    @beartype', '    def clo(a: %s) -> %s:' % (ann, ann), '        return a',
-                '    class Local: pass', '    return clo, Local', 'f, Local_ = factory()']
+                '    ' + local, '    return clo, Local', 'f, Local_ = factory()']
     return '\n'.join(head + body) + '\n'
 
 
@@ -150,6 +155,9 @@ def _mkcls(name, modname, flavour):
     """The class a name refers to: plain, or a subclass of a subscripted generic (a class that is itself a checkable hint)."""
     if flavour == 'list_int':
         return types.new_class(name, (list[int],), {}, lambda ns: ns.update(__module__=modname))
+    if flavour == 'generic':
+        import typing
+        return types.new_class(name, (typing.Generic[typing.TypeVar('TV')],), {}, lambda ns: ns.update(__module__=modname))
     if flavour == 'dict_str_int':
         return types.new_class(name, (dict[str, int],), {}, lambda ns: ns.update(__module__=modname))
     return type(name, (), {'__module__': modname})
